@@ -36,7 +36,16 @@ STICKY = [
     '\tphase\t256', '\tsave', '\tsection\tzzsect', 'zzst\tstruct', '\tif\t1', '\tif\t0', 'zzopen\tmacro\tp1,p2', '\texpect\t1500', '\trept\t3',
     '\tswitch\t1', '\tintsyntax\t+0hex', '\tcompmode\ton', '\tbigendian\ton', '\tmaxnest\t2', 'zzvar\tset\t99', '\tirp\tzzp,1,2',
     '\tmessage\t"sticky"', '\tpushv\tzzstack,zzvar', '\tpage\t10', '\ttitle\t"zz"', '\twhile\t0',
+    # things that are kept in process-wide lists or buffers: exports without any code, statements that enlarge the code buffer
+    'zzexp\tequ\t5\n\texport_sym\tzzexp', '\tdc.b\t[6000]1', '\tdb\t6000 dup (1)', '\tfcb\t[6000]1', '\tbyt\t[6000]1',
+    '\tdc.b\t"' + 'Ab' * 400 + '"', '\tdb\t"' + 'Ab' * 400 + '"', '\tshared\tzzvar', '\tforward\tzzfwd', '\tpublic\tzzvar',
 ]
+# successors that depend on such process-wide state if it is not per file: (text with {d} = byte data statement of the target)
+SENSITIVE_SUCC = [
+    '\torg\t1\n\talign\t4096,85\n\t{d}\t1\n', '\torg\t3\n\talign\t16384,0\n\t{d}\t2\n', '\t{d}\t"' + 'xy' * 300 + '"\n',
+    '\t{d}\t' + ','.join(str(i & 255) for i in range(400)) + '\n', 'a1\tequ\t3\n\texport_sym\ta1\n\t{d}\ta1\n', '\t{d}\t1\n',
+]
+SUCC_DATA = {'z80': 'db', '68000': 'dc.b', '6502': 'byt', '8051': 'db', '6809': 'fcb', '8086': 'db'}
 MNEMONIC_MACROS = ['nop', 'move', 'mov', 'ld', 'lda', 'ldi', 'add', 'jmp', 'db', 'dc', 'dw', 'byt', 'org', 'equ', 'ret', 'rts', 'cpu', 'if', 'endif', 'include']
 FAIL_TAILS = ['\tbogusinstruction', '\terror\t"planted"', '\tfatal\t"planted fatal"', '', '', '']
 
@@ -50,6 +59,8 @@ def plan(tier, seed):
     # short files made of statements taken from the golden programs: what the code generator remembers about the LAST statements of one
     # file (previous instruction, pending prefix, delay slot ...) must not reach the FIRST statements of the next
     cases += [{'kind': 'vocab'} for _ in range(150 if tier == 'quick' else 12000)]
+    # generated predecessor + a small successor that is sensitive to buffers and lists which live as long as the process
+    cases += [{'kind': 'gen2'} for _ in range(60 if tier == 'quick' else 3000)]
     # transition coverage: per golden program and CPU section, one-statement files for every mnemonic of the section, arranged so that
     # EVERY ordered pair (last statement of one file, first statement of the next) occurs in one multi-file invocation
     sections = [(p.name, cpu) for p in corpus.programs() for cpu in sorted(vocabulary(p))]
@@ -291,6 +302,12 @@ def run_case(case, ctx):
         b = byname[case['succ']] if 'succ' in case else rng.choice(progs)
         seq = [('gen', None), ('prog', b)]
         flags = list(b.flags)
+    elif kind == 'gen2':
+        cpu2 = rng.choice(G_CPUS)
+        tb = '\tcpu\t%s\n' % cpu2 + rng.choice(SENSITIVE_SUCC).replace('{d}', SUCC_DATA[cpu2])
+        b = progs[0]
+        seq = [('gen', None), ('text', tb)]
+        flags = []
     elif kind == 'vocab':
         a = rng.choice(progs)
         b = a if rng.random() < 0.6 else rng.choice(byflags[tuple(a.flags)])
